@@ -15,8 +15,8 @@ import (
 
 var httpWAFs = map[string]coraza.WAF{}
 
-func httpWAF(access bool, limit int, action string, ctl3 string) (coraza.WAF, error) {
-	key := fmt.Sprintf("%v/%d/%s/%s", access, limit, action, ctl3)
+func httpWAF(access bool, limit int, action string, ctl3 string, reqReject bool) (coraza.WAF, error) {
+	key := fmt.Sprintf("%v/%d/%s/%s/%v", access, limit, action, ctl3, reqReject)
 	if w, ok := httpWAFs[key]; ok {
 		return w, nil
 	}
@@ -27,10 +27,14 @@ func httpWAF(access bool, limit int, action string, ctl3 string) (coraza.WAF, er
 	if action == "P" {
 		act = "ProcessPartial"
 	}
+	reqAct := "ProcessPartial"
+	if reqReject {
+		reqAct = "Reject"
+	}
 	d := fmt.Sprintf(`SecRuleEngine On
 SecRequestBodyAccess On
 SecRequestBodyLimit 16
-SecRequestBodyLimitAction ProcessPartial
+SecRequestBodyLimitAction %s
 SecResponseBodyAccess %s
 SecResponseBodyMimeType text/plain
 SecResponseBodyLimit %d
@@ -40,10 +44,11 @@ SecRule REQUEST_HEADERS:X-Block "@streq deny0" "id:11,phase:1,deny"
 SecRule REQUEST_HEADERS:X-Block "@streq redirect" "id:12,phase:1,redirect:http://e.x/"
 SecRule REQUEST_HEADERS:X-Block "@streq drop" "id:13,phase:1,drop"
 SecRule REQUEST_HEADERS:X-Block "@streq deny2" "id:14,phase:2,deny,status:402"
+SecRule REQUEST_HEADERS:X-Block "@streq observe" "id:15,phase:1,pass,nolog,ctl:ruleEngine=DetectionOnly"
 SecRule RESPONSE_STATUS "@streq 404" "id:3,phase:3,deny,status:406"
 SecRule RESPONSE_HEADERS:X-Bad "@streq 1" "id:31,phase:3,deny,status:407"
 SecRule RESPONSE_BODY "@contains BAD" "id:4,phase:4,deny,status:502"
-`, acc, limit, act)
+`, reqAct, acc, limit, act)
 	if ctl3 == "on" {
 		d += "SecAction \"id:30,phase:3,pass,nolog,ctl:responseBodyAccess=On\"\n"
 	} else if ctl3 == "off" {
@@ -68,7 +73,8 @@ func execHTTP(a []string) string {
 	if len(a) > 9 {
 		ctl3 = a[9]
 	}
-	waf, err := httpWAF(access, limit, a[3], ctl3)
+	// X-Block: observe = a phase-1 rule puts the transaction under DetectionOnly, on a WAF whose request body limit action is Reject
+	waf, err := httpWAF(access, limit, a[3], ctl3, a[5] == "observe")
 	if err != nil {
 		return "CONFIGERR"
 	}
@@ -179,6 +185,15 @@ func init() {
 			if c.r.Chance(0.25) {
 				ctl3 = c.r.Pick("on", "off")
 				c.stats.Hit("phase3-ctl:responseBodyAccess")
+			}
+			if c.r.Chance(0.08) {
+				// observation mode switched on at run time: nothing interrupts, the handler must get the whole body
+				reqblock, access, ctl3 = "observe", false, "-"
+				rb = make([]byte, 10+c.r.Intn(30))
+				for k := range rb {
+					rb[k] = byte('a' + k%26)
+				}
+				c.stats.Hit("request:observe")
 			}
 			chunked := c.r.Chance(0.4)
 			if chunked {
